@@ -378,11 +378,15 @@ func NewReader(r io.Reader, b int) (*Reader, error) {
 // Read a single feature and return it or an error.
 func (r *Reader) Read() (f feat.Feature, err error) {
 	line, err := r.r.ReadBytes('\n')
+	line = bytes.TrimSpace(line)
 	if err != nil {
-		return
+		if err != io.EOF || len(line) == 0 {
+			return
+		}
+		// Final line without a terminator.
+		err = nil
 	}
 	r.line++
-	line = bytes.TrimSpace(line)
 
 	switch r.BedType {
 	case 3:
